@@ -153,7 +153,9 @@ CLAIMED = {
                 "(geom_ok) of the window and accounting theorems; validation rejects exactly the unservable "
                 "geometries; the store is one cell for the whole process. The correspondence run offers a grid of "
                 "configurations (entity and YAML) to one harness process each and compares acceptance, the values "
-                "read on the initialising and on another thread, and the geometry of nodes created on both threads.",
+                "read on the initialising and on another thread, and the geometry of nodes created on both threads; three modes "
+                "(check + install, the crate's init entry, the public init_with_config after an earlier one), metric log on/off, "
+                "and the values still in effect after a rejected configuration.",
         "design_ref": "DESIGN.md §6 C17",
         "note": "Trusted: Coq kernel + VM; the thread-independence theorem is about the model's single cell and is "
                 "tied to the code by the two-thread observation only; init_core_components' background tasks are "
@@ -166,7 +168,7 @@ CLAIMED = {
                 "futures dropped), admitted iff Sentinel admits, inner service called once iff admitted, rejected "
                 "requests get the fallback or an error, and the in-flight count returns to its previous value after "
                 "every completed call — response or error. Compared with the real SentinelService over a scripted "
-                "inner service polled by hand.",
+                "inner service polled by hand; the same service instance first serves a request for another resource.",
         "design_ref": "DESIGN.md §6 C20",
         "note": "Trusted: Coq kernel + VM (axiom-free); the async state machine generated by rustc and tower's "
                 "plumbing are abstracted to the order of effects; a future dropped before completion keeps its "
@@ -268,7 +270,10 @@ CLAIMED = {
                 "request is admitted only while Closed or as the single probe of the Open to Half-Open transition it performed "
                 "itself; that transition never happens before the retry deadline in force. C16_listeners_in_step: the state "
                 "told to listeners is the breaker's state. C16_all_threads_finish. C16_unchecked_deadline_refuted: without the "
-                "deadline re-check under the lock (the code before the fix) a schedule admits a second probe before the new deadline.",
+                "deadline re-check under the lock (the code before the fix) a schedule admits a second probe before the new deadline. "
+                "Going back from Half-Open to Open with the old deadline is allowed only to a thread that took a probe and has not "
+                "reported yet (pending set in the Spec). A free-running family (4-8 real threads, no forced schedule) checks the "
+                "listener log for a valid, once-only path.",
         "design_ref": "DESIGN.md §6 C16",
         "note": "Trusted: Coq kernel + VM; stdlib classical axioms via Flocq (threshold ratios); the cooperative scheduler of the "
                 "harness and the placement of the scheduling points (before every state read through current_state() and before "
@@ -286,7 +291,9 @@ CLAIMED = {
                 "map holds, in-flight = built - exited on the resource node and the inbound node, pass / complete / rt totals never "
                 "exceed what was recorded and equal it when no bucket roll-over is involved. C14_one_node; C14_all_threads_finish; "
                 "C14_check_then_insert_refuted (the code before the fix puts two first-touch threads on two nodes); "
-                "C14_rollover_race_loses (a roll-over race really loses events, so exactness cannot be extended to it).",
+                "C14_rollover_race_loses (a roll-over race really loses events, so exactness cannot be extended to it). On traces "
+                "additionally: a per-window bound (a reading never exceeds what returned operations recorded inside its window), "
+                "ring-lap cases, free-running cases and a first-touch family (simultaneous first touches of brand-new resources).",
         "design_ref": "DESIGN.md §6 C14",
         "note": "Trusted: Coq kernel + VM (closed under the global context); the cooperative scheduler of the harness and the placement of the "
                 "scheduling points (node-map miss, bucket lookup loop, inside reset_bucket, counter add, concurrency inc/dec); "
@@ -317,13 +324,16 @@ CLAIMED = {
                 "items written to it and every index entry (second, offset) points at the first line of that second in the same "
                 "file, the seconds increasing (C19_index_points_at_seconds); the number of retained files never exceeds the limit "
                 "(C19_retention); a log cut at any byte reads back as the complete lines before the cut plus at most one partial "
-                "line (C19_torn_tail); every complete line parses back to the item written (C19_lines_parse_back). Search results "
+                "line (C19_torn_tail); every complete line parses back to the item written (C19_lines_parse_back); on every "
+                "directory whose files are consecutive segments of one time-ordered sequence with exact indexes the search by "
+                "time returns exactly the items of the interval, in order (C19_find_by_time_exact); every write history produces "
+                "such a directory (C19_written_directory_is_good), hence C19_search_after_writes. Search results "
                 "(by time range and resource; from a time with a line limit), across roll-overs by size and date and after a "
                 "crash cut, are compared with the model on every run and judged by an executable predicate against the "
                 "directory dump (Spec/C19Spec.v).",
         "design_ref": "DESIGN.md §6 C19",
-        "note": "Partial: search correctness across files and the crash clause are evaluated on every generated history of the "
-                "model and the implementation, not proved for all histories; each search uses a fresh searcher (the cached "
+        "note": "Partial: the line-limited search and search after a crash cut are evaluated on every generated history of the "
+                "model and the implementation, not proved for all histories (search by time on an intact directory is a theorem); each search uses a fresh searcher (the cached "
                 "index position is not exercised); a crash is emulated by truncating the files the last write appended to. "
                 "Trusted: Coq kernel + VM (closed under the global context); the harness's own directory listing and index "
                 "decoding; std::fs semantics after flush().",
